@@ -34,6 +34,7 @@ def bellman_residual(g, pr, x):
 
 
 def check(ctx, recs):
+    recs = sc.mismatch_first(recs)
     budget = 600 if ctx.quick else 4000
     for r in recs:
         if not r.ok or r.op != "solve":
@@ -61,7 +62,10 @@ def check(ctx, recs):
         live = ox.reachable_from0(tl) if r.prune else set(range(len(rew)))
         tol = 1e-9 if guard == "exact" else 1e-4
         for s in live:
-            if abs(rew[s] - float(v[s])) > tol * (1 + float(v[s])):
+            # exact family: the values are binary64 numbers, so the slack is absolute (plus a few ulps), not relative - rewards
+            # of the order 1e10 that differ by single units must not pass as equal
+            slack = (1e-9 + 1e-14 * abs(float(v[s]))) if guard == "exact" else tol * (1 + float(v[s]))
+            if abs(rew[s] - float(v[s])) > slack:
                 ctx.violation("state %d reports expected reward %r, value of the conditioned game is %s (family %s)" % (s, rew[s], v[s], guard),
                               r.inp(), rewards=rew)
 
